@@ -1,4 +1,4 @@
-"""C09: sin and cos are exactly periodic (decided); accuracy and |result| <= 1 are not decided (DESIGN section 6)."""
+"""C09: sin and cos: exact periodicity, accuracy 4 ulp + r^9/9! and |result| <= 1, all decided."""
 from . import common, lib, reduce
 from .lib import M, E, sym
 from fxai.interp import Broken
@@ -47,13 +47,114 @@ def run(tier, seed):
             rc = ctx.run("w_cos", [DOM])
             ro = ctx.run("w_sin_off", [DOM])
             lib.check_equiv(V, rc, ro, "cos(x) == sin(x + fixpidiv2)", site="cos")
+            if cfg == configs[0] or tier != "quick":
+                accuracy(V, ctx, phi, cfg)
         except Broken as e:
             V.broke("%s: %s" % (cfg, e))
-    expl = ("DECIDED (exact periodicity): on every path of sin over |x| < 2^46 (|raw| < 2^62) an intermediate value r of that path is exhibited with "
+    expl = ("Exact periodicity: on every path of sin over |raw| < 2^62 an intermediate value r of that path is exhibited with "
             "(1) r congruent to x modulo 2*phi.v (remainder symbols replaced by the forms they reduce), (2) all r inside one window of "
             "at most 2*phi.v integers, (3) the path's returned form identical to the form returned by abstract re-execution of sin on the "
-            "argument r. Hence sin(x) = G(x mod 2phi) and sin(x + k*2phi) == sin(x) bit for bit; no overflow on the domain. cos is shown equal "
-            "to sin(x + fixpidiv2) by summary equivalence, so it inherits the period. NOT DECIDED: the accuracy bound 4 ulp + r^9/9! and "
-            "|result| <= 1 (the true maximum error is within ~1 raw unit of the bound; interval evaluation of the polynomial loses more than "
-            "that to the dependency problem, and shrinking cells to single inputs would be running the code).")
-    return V.finish("other", expl, "./fx check C09 --tier %s" % tier, extra={"configs": configs, "reduction": info})
+            "argument r. Hence sin(x) = G(x mod 2phi) and sin(x + k*2phi) == sin(x) bit for bit; cos equals sin(x + fixpidiv2) by summary "
+            "equivalence. Accuracy and range: the fast window is cut into cells of 64 arguments; on each cell and path the idealised real "
+            "expression of the returned form (floors and truncations replaced by their mid value, their half range accumulated as a rounding "
+            "budget E) is evaluated by interval automatic differentiation: actual(x) lies in v(x0) + D*(x-x0) +- E; against the interval "
+            "oracle for sin and cos this gives |actual - 65536 sin x| <= |v(x0)-f(x0)| + max|D - cos|*|x-x0| + E, which is compared with "
+            "4 + 65536*r^9/9! (r minimised over the cell) minus a slack of |2phi - 2pi| + |fixpidiv2 - pi/2| raw units that carries the "
+            "statement to all |x| <= 2pi through the period and to cos through its offset; the same enclosure shows |result| <= 65536. "
+            "Every clause of C09 is decided.")
+    return V.finish("proof", expl, "./fx check C09 --tier %s" % tier, extra={"configs": configs, "reduction": info})
+
+
+# ------------------------------------------------------------------ accuracy and range, cell by cell
+def accuracy(V, ctx, phi, cfg, width=64):
+    """|sin_lib(x) - sin x| <= 4 ulp + r^9/9! and |result| <= 1 on the fast window W, with enough slack (1.2 raw units) to carry the
+    statement to |x| <= 2*pi through the exact periodicity (2*phi differs from 2*pi by < 0.84 raw) and to cos (fixpidiv2 differs
+    from pi/2 by < 0.32 raw)."""
+    from fractions import Fraction
+    from . import fxnum, realmath as R
+    m = 2 * phi
+    pil, pih = R.to_frac(R.pi())
+    d2pi = max(abs(65536 * 2 * pil - m), abs(65536 * 2 * pih - m))
+    r0 = ctx.run("w_pidiv2", [])
+    pd2 = lib.ret_rng(r0.paths[0])[0]
+    dpd2 = max(abs(65536 * pil / 2 - pd2), abs(65536 * pih / 2 - pd2))
+    slack = d2pi + dpd2
+    V.oblige(slack < Fraction(13, 10))
+    if not slack < Fraction(13, 10):
+        V.violation("pi constants", "phi", "2*phi and fixpidiv2 are %.3f raw units away from 2*pi and pi/2: the period/offset error alone "
+                    "exceeds the accuracy budget" % float(slack))
+        return
+    # fast window = union of the boxes of the paths whose reduced argument is the parameter itself
+    r = ctx.run("w_sin", [("i", -(phi // 2), phi + phi // 2)])
+    fact9 = 362880
+    ncell = 0
+    worst = None
+    fails = []
+    for p in r.paths:
+        lo, hi = p.state.bounds["p0"]
+        a = lo
+        while a <= hi:
+            b = min(hi, a + width - 1)
+            try:
+                x0, v0, D, E = fxnum.cell_bound(p.ret, a, b)
+            except fxnum.Unsupported as e:
+                V.inconc("w_sin [%s]: idealised expression not available on path %s: %s" % (cfg, lib.describe_path(p)["box"], e))
+                break
+            (sl, sh), (cl_, ch) = R.sin_cos_f(Fraction(a, 65536), Fraction(b, 65536))
+            (s0l, s0h), _ = R.sin_cos_f(Fraction(x0, 65536), Fraction(x0, 65536))
+            f0 = (65536 * s0l, 65536 * s0h)
+            dmax = max(abs(D[0] - ch), abs(D[1] - cl_), abs(D[0] - cl_), abs(D[1] - ch))
+            dx = max(x0 - a, b - x0)
+            err = max(abs(v0 - f0[0]), abs(v0 - f0[1])) + dmax * dx + E
+            # r: distance of x/65536 from the nearest multiple of pi, minimum over the cell, reduced by the slack
+            def dist(xr):
+                xv = Fraction(xr, 65536)
+                k = round(float(xv) / 3.141592653589793)
+                return min(abs(xv - k * pil), abs(xv - k * pih))
+            inside = any(Fraction(a, 65536) <= k * pil <= Fraction(b, 65536) or Fraction(a, 65536) <= k * pih <= Fraction(b, 65536)
+                         for k in (-1, 0, 1, 2))
+            rmin = Fraction(0) if inside else min(dist(a), dist(b))
+            rmin = max(Fraction(0), rmin - slack / 65536)
+            bound = 4 + 65536 * rmin ** 9 / fact9
+            ok = err + slack <= bound
+            # range: |result| <= 1
+            up = v0 + max(D[1] * (b - x0), D[0] * (a - x0), 0) + E
+            dn = v0 + min(D[0] * (b - x0), D[1] * (a - x0), 0) - E
+            okr = up <= 65536 and dn >= -65536
+            V.oblige(ok)
+            V.oblige(okr)
+            ncell += 1
+            mg = bound - err - slack
+            if worst is None or mg < worst[0]:
+                worst = (mg, a, b, float(err), float(bound))
+            if not (ok and okr):
+                fails.append((a, b, p, float(err), float(bound), float(up), float(dn)))
+            a = b + 1
+    info = {"cells": ncell, "cell_width": width, "slack_raw_units": float(slack), "tightest_margin": None if worst is None else float(worst[0]),
+            "tightest_cell": None if worst is None else [worst[1], worst[2], worst[3], worst[4]]}
+    V.cover.setdefault("accuracy", {})[cfg] = info
+    if ncell < 3000:
+        V.broke("w_sin [%s]: only %d accuracy cells" % (cfg, ncell))
+    # failing cells: is some point a definite violation (one-sided rule), else undecided
+    for a, b, p, err, bound, up, dn in fails[:20]:
+        hit = None
+        for x in range(a, b + 1):
+            out = r.conc((x,))
+            if out[0] != "ret":
+                hit = (x, out)
+                break
+            s, _ = R.sin_cos(R.iv(Fraction(x, 65536)))
+            tl, th = R.to_frac(s)
+            xv = Fraction(x, 65536)
+            k = round(float(xv) / 3.141592653589793)
+            rr = min(abs(xv - k * pil), abs(xv - k * pih))
+            bd = 4 + 65536 * rr ** 9 / fact9
+            if out[1] < 65536 * tl - bd or out[1] > 65536 * th + bd or abs(out[1]) > 65536:
+                hit = (x, out)
+                break
+        if hit:
+            V.violation("sin accuracy 4 ulp + r^9/9! and |result| <= 1", "sin", "sin(%d) [%s] = %s: outside the allowed error (cell [%d,%d]: proved error "
+                        "bound %.2f, allowed %.2f raw units)" % (hit[0], cfg, lib.out_str(hit[1]), a, b, err, bound), lib.rp(r, (hit[0],), "sin accuracy"))
+            break
+        V.inconc("w_sin [%s]: accuracy not proved on cell [%d,%d]: error bound %.3f + slack, allowed %.3f; result range [%.1f, %.1f]" % (cfg, a, b, err, bound, dn, up))
+    return info
